@@ -440,7 +440,7 @@ class Ctx:
         return res
 
     def impl_model(self, name, scns, maxb=3, maxuser=3, fixed=None, simulate=None, max_replay=400, invariants=None,
-                   timeout=1500, faults=(), maxfaults=0, usercancel=False, eager=False):
+                   timeout=1500, faults=(), maxfaults=0, usercancel=False, eager=False, resub=()):
         """Explore JadeImpl on the given scenarios (exhaustively, or by simulation), then replay the behaviours TLC
         produced into the real code: events predicted by the model vs. events observed (conformance), and the real
         traces are judged by the monitor like any other."""
@@ -449,13 +449,15 @@ class Ctx:
         mod = "MC_" + re.sub(r"[^A-Za-z0-9]", "_", name) + f"_{os.getpid()}"
         recs = [scenario.tla_scn(s, f"s{i}") for i, s in enumerate(scns)]
         with open(os.path.join(gen, mod + ".tla"), "w") as f:
-            f.write(genmc.mc_module(mod, "JadeImpl", recs))
+            f.write(genmc.mc_module(mod, "JadeImpl", recs, "MCResubFlags == {" + ", ".join(
+                genmc.tla({"failed": "--no-failed" not in fs, "missing": "--no-missing" not in fs, "successful": "--successful" in fs})
+                for fs in resub) + "}"))
         invs = invariants or ["MonitorClean", "N_OneSubmitterRole", "N_NodesBound", "N_CountersMatch", "N_DoneHasRow",
                               "N_RowsUnique"]
         cfg = ["SPECIFICATION Spec", "CONSTANTS", "  Scns <- ScnSet", f"  MaxB = {maxb}", f"  MaxUser = {maxuser}",
                "  Monitor = TRUE", "  Log = TRUE", "  Fixed = {%s}" % ", ".join(json.dumps(x) for x in sorted(fixed or FIXED)),
                "  FaultKinds = {%s}" % ", ".join(json.dumps(x) for x in faults), f"  MaxFaults = {maxfaults}",
-               "  UserCancels = " + ("TRUE" if usercancel else "FALSE"), "  EagerUser = " + ("TRUE" if eager else "FALSE"),
+               "  UserCancels = " + ("TRUE" if usercancel else "FALSE"), "  EagerUser = " + ("TRUE" if eager else "FALSE"), "  ResubFlags <- MCResubFlags",
                "VIEW View"] + [f"INVARIANT {i}" for i in invs] + ["INVARIANT DumpBehaviour", "CHECK_DEADLOCK FALSE"]
         cfgp = os.path.join(gen, mod + ".cfg")
         with open(cfgp, "w") as f:
@@ -580,11 +582,11 @@ class Ctx:
         for tag, mu in (("with recovery", maxuser), ("without recovery", 0)):
             mod = "MC_live_" + re.sub(r"[^A-Za-z0-9]", "_", tag) + f"_{os.getpid()}"
             with open(os.path.join(gen, mod + ".tla"), "w") as f:
-                f.write(genmc.mc_module(mod, "JadeImpl", recs))
+                f.write(genmc.mc_module(mod, "JadeImpl", recs, "MCResubFlags == {}"))
             cfgp = os.path.join(gen, mod + ".cfg")
             with open(cfgp, "w") as f:
                 f.write("\n".join(["SPECIFICATION FairSpec", "CONSTANTS", "  Scns <- ScnSet", f"  MaxB = {maxb}", f"  MaxUser = {mu}",
-                                   "  Monitor = FALSE", "  Log = FALSE", "  FaultKinds = {}", "  MaxFaults = 0", "  UserCancels = FALSE", "  EagerUser = FALSE",
+                                   "  Monitor = FALSE", "  Log = FALSE", "  FaultKinds = {}", "  MaxFaults = 0", "  UserCancels = FALSE", "  EagerUser = FALSE", "  ResubFlags <- MCResubFlags",
                                    "  Fixed = {%s}" % ", ".join(json.dumps(x) for x in sorted(fixed or FIXED)),
                                    "PROPERTY EventuallyComplete", "CHECK_DEADLOCK FALSE"]) + "\n")
             res = tlc.run_tlc(mod, cfg=cfgp, workers=NCPU, cwd=gen, timeout=1500)
@@ -1309,6 +1311,14 @@ def check_C13(ctx):
     ctx.models[-1]["ok"] = "R_DroppedBlockersHaveOutcomeAlways is violated" in neg["out"]
     if not ctx.models[-1]["ok"]:
         raise tlc.TlcError("Resubmit_k2.cfg no longer shows the K2 counterexample:\n" + neg["out"][-1500:])
+    # the protocol model with resubmit-jobs as a process of its own (UserResubmit / RPromote / RReset, then an ordinary round):
+    # every interleaving of both epochs, the epoch-aware clauses as invariants, behaviours replayed into the code
+    ctx.impl_model("JadeImpl + resubmit-jobs on the completed submission",
+                   [families.scn("AB", blk={"B": ["A"]}, rc={"A": 1}, groups=[families.G(size=1, procs=1)], maxnodes=0),
+                    families.scn("ABC", blk={"C": ["A"]}, flag="C", rc={"A": 1}, groups=[families.G(size=2, procs=2)], maxnodes=0),
+                    families.scn("ABC", blk={"A": ["C"], "B": ["C"]}, flag="A", rc={"C": 2}, groups=[families.G(size=1, procs=1)], maxnodes=2)],
+                   maxb=6, maxuser=3, max_replay=150 if q else 2000,
+                   resub=[["--failed", "--missing"], ["--no-failed", "--missing", "--successful"], ["--failed", "--no-missing", "--successful"]])
     traces = run_tasks(tasks)
     ctx.judge(traces, "completed submissions (incl. missing jobs) resubmitted once or twice with random flag combinations, "
               "with and without report generation; resubmit-jobs on incomplete submissions")
